@@ -312,6 +312,8 @@ def abstract_compute_swap(I, args):
         ent = (ok, vals, args)      # args kept alive: the key uses AST ids
         memo[key] = ent
     ok, vals, _ = ent
+    off = deref(args[1])
+    I.world.meta.setdefault('uf_calls', []).append((off.get('denom'), off.get('amount'), deref(args[2]), vals))
     if not I.fork(ok):
         return Err(En('pool_manager::error::ContractError', 'SwapOverflowError'))
     return Ok(St('SwapComputation', list(vals), ['return_amount', 'slippage_amount', 'swap_fee_amount', 'protocol_fee_amount',
